@@ -188,7 +188,12 @@ class Builder:
         late = bool(m.get("late")) or style == "class"
         mod = None
         if style == "proc":
-            mod = h.Module(name=m.get("name"))
+            if m.get("bare"):
+                scope = {"h": h, "NAME": m.get("name")}
+                exec("mod = h.Module(name=NAME)", scope)
+                mod = scope["mod"]
+            else:
+                mod = h.Module(name=m.get("name"))
             for i, (name, o) in enumerate(order):
                 if i % 2 == 0:
                     mod.add(o, name=name)
